@@ -10,10 +10,7 @@ package main
 //	obs    = (((entered ...) reached-output) ...) one row per event | (2) configuration refused | (5) stuck
 
 import (
-	"bytes"
 	"encoding/json"
-	"os"
-	"path/filepath"
 	"sync"
 	"sync/atomic"
 	"time"
@@ -164,20 +161,10 @@ func chainSx(acts []chainAct) hx.Sx {
 
 var obsStuck = hx.L(hx.I(5))
 
-// finding (notes/finding-C14-match-fields-non-string.md): fd/util.go extractConditions silently drops a match_fields entry
-// whose value is a number, bool, null or object; with match_mode and (the default) the action then applies to EVERY event
-const nonStringFinding = "C14-match-fields-non-string"
-
-// knownListed: a family that shows a genuine, not yet recorded defect is emitted only once the coordinator has listed the
-// proposed finding id in /verif/known_findings.json
-func knownListed(id string) bool {
-	if os.Getenv("C14_ASSUME_LISTED") != "" { // development aid
-		return true
-	}
-	exe, _ := os.Executable()
-	kf, err := os.ReadFile(filepath.Join(filepath.Dir(filepath.Dir(exe)), "known_findings.json"))
-	return err == nil && bytes.Contains(kf, []byte(id))
-}
+// repaired defect C14-match-fields-non-string (notes/finding-C14-match-fields-non-string.md, /repo fix 4c267b0):
+// fd/util.go extractConditions silently dropped a match_fields entry whose value is a number, bool, null or object; with
+// match_mode and (the default) the action then applied to EVERY event. The reader now refuses such a configuration, like
+// a non-string inside a list; the family match-fields-non-string (streams_cov.go) pins it.
 
 func execChain(via int, actsSx []hx.Sx, evs []hx.Sx) hx.Sx {
 	terse := routeOf(via) == rtTerseJSON
